@@ -9,22 +9,22 @@ PROP_FILES = ["Props/C03.v"]
 def run(rep, tier, seed):
     rng = vlib.Rng(seed)
     confs = sessions.configs(tier)
-    n = 90 if tier == "quick" else 1500
-    nops = 45 if tier == "quick" else 70
+    n = 90 if tier == "quick" else 700
+    nops = 45 if tier == "quick" else 60
     scripts = []
     for i in range(n):
         conf = confs[i % len(confs)] if i % 3 else confs[rng.below(4)]     # tiny volumes over-represented
         if tier == "quick" and ((conf[0].startswith("fat32") and i > 22) or (conf[0].startswith("fat16") and i > 44)):
             conf = confs[rng.below(7)]
         scripts.append(sessions.gen_session(rng, conf, nops, file_io=True) + ["drop_all", "list 0", "unmount"])
-    for i in range(6 if tier == "quick" else 100):
+    for i in range(6 if tier == "quick" else 60):
         scripts.append(sessions.full_dir_session(rng, "root" if i % 3 else "chain"))
     # directories growing over non-adjacent clusters, entries straddling / starting at cluster boundaries, files re-opened and modified
     heavy = [c for c in confs if c[0] in (("fat12-small", "fat12-1fat") if tier == "quick" else ("fat12-small", "fat12-1fat", "fat16-min", "fat32-min"))]
-    for i in range(4 if tier == "quick" else 80):
+    for i in range(4 if tier == "quick" else 40):
         scripts.append(sessions.dir_heavy_session(rng, heavy[i % len(heavy)], nfiles=rng.range(8, 16)))
     # FAT32 objects whose first cluster needs the high word of the entry, then loses it again
-    for i in range(1 if tier == "quick" else 12):
+    for i in range(1 if tier == "quick" else 6):
         scripts.append(sessions.fat32_high_cluster_session(rng))
     judged = sessions.run_judged(scripts, flags=("wf", "tree"), shards=16)
     checked_states = 0
